@@ -859,7 +859,7 @@ class Executor:
             if v is not None:
                 return v
         from . import models
-        if name in ("int", "str", "bytes", "bool", "float", "list", "dict", "tuple", "set", "frozenset", "type", "object"):
+        if name in ("int", "str", "bytes", "bool", "float", "list", "dict", "tuple", "set", "frozenset", "type", "object", "memoryview"):
             return VClass(name)         # builtin types: classes (isinstance / type() ==) that are also callable
         if name in models.BUILTINS or name in self.reg.externals:
             return VFunc("builtin", name)
